@@ -318,13 +318,15 @@ def from_value(x):
     if isinstance(x, (list, tuple)): return arr_from_list([from_value(v) if isinstance(v, (list, tuple)) else v for v in x])
     return x
 CAST_UNKNOWN = z3.Function("cast_to_dtype_of_another_array", z3.RealSort(), z3.RealSort())
+CASTU_VEC = z3.Function("vector_cast_to_dtype_of_another_array", VEC, VEC)
 def _store_cast_for(dtype):
     """buffers created with the dtype OF ANOTHER ARRAY (x.dtype - unknown to the engine: integer or float) convert whatever is stored into them: uninterpreted cast,
     so that no proof can rely on a stored float surviving; explicit float dtypes and the default store reals as they are"""
     if dtype == "dtype":
         def cast(v):
             if isinstance(v, SArr): return SArr(v.shape, lambda idx: cast(v.get(idx)))
-            t = toz3(v); t = z3.ToReal(t) if z3.is_int(t) else t
+            if isinstance(v, (bool, int)) or (is_z3(v) and (z3.is_int(v) or z3.is_bool(v))): return v          # integers survive a cast to an integer or a float type
+            t = toz3(v)
             return CAST_UNKNOWN(t) if z3.is_real(t) else v
         return cast
     return None
@@ -565,6 +567,13 @@ def astype(o, t):
     """x.astype(dtype): identity on values that are already of that kind; a cast of REAL (float) data to an integer dtype is a genuine
     operation (truncation), modelled by uninterpreted functions so that no proof can silently rely on it being the identity"""
     integer = isinstance(t, str) and t.startswith(("int", "uint"))
+    if t == "dtype":
+        # a cast to the dtype OF ANOTHER ARRAY (x.astype(y.dtype)): the engine does not know whether that is an integer or a float type, so real data and opaque
+        # vectors go through an uninterpreted cast (no proof may rely on it being the identity); integers and booleans keep their value in either case
+        if isinstance(o, SArr):
+            if o.vec is not None: return vec_array(o.shape, lambda l: CASTU_VEC(o.vec(tuple(l))))
+            return SArr(o.shape, lambda idx: _store_cast_for("dtype")(o.get(idx)))
+        return _store_cast_for("dtype")(o)
     if not integer: return o
     bits = int("".join(ch for ch in t if ch.isdigit()) or 32)
     def narrow(x):
